@@ -232,6 +232,30 @@ def rule_R2(ctx, fd, fp):
     ctx.floor(rid, "model methods compared", n, 35)
 
 
+WRAPPER_OK = ["Deref::deref", "DerefMut::deref_mut", "MessageFieldExt::get_value"]
+
+
+def rule_R4(ctx, fd):
+    rid = "R4"
+    ctx.rule(rid, "wrapper transparency: in the protobuf configuration shared code applies to values of rust-protobuf wrapper types (MessageField<_>, EnumOrUnknown<_>, ...) only Deref and the "
+                  "model's own accessor trait; any other operation on a wrapper (==, Default, Clone, Debug, ...) has wrapper semantics (unset vs zero value) that the plain model does not have")
+    n = 0
+    bad = []
+    for name, b in shared_bodies(fd).items():
+        for c in b.calls():
+            if "protobuf::" in c.callee_args or any("protobuf::" in t for t in c.targs):
+                n += 1
+                if not c.matches(WRAPPER_OK):
+                    bad.append((name, c))
+    ctx.floor(rid, "operations on protobuf wrapper values in shared code", n, 5)
+    for name, c in bad:
+        ctx.ob(rid, "%s|%s" % (name, strip_generics(c.callee)), False,
+               "shared function %s applies %s to a rust-protobuf wrapper value: its result depends on wrapper semantics (e.g. an unset MessageField compares equal to Default while a plain "
+               "zero-valued struct does too) and differs between the two data models" % (name, strip_generics(c.callee_args)[:140]), site=c.span)
+    if not bad:
+        ctx.ob(rid, "only-deref-and-accessors", True, "%d operations on wrapper values in shared code, all Deref / model accessor calls" % n)
+
+
 def rule_R3(ctx, fd, fp):
     rid = "R3"
     ctx.rule(rid, "enum agreement: MetricType has the same variant names and discriminants in both models, derives Debug (the `# TYPE` word) in both, Default = COUNTER in both; "
@@ -270,3 +294,4 @@ def run(ctx):
     ctx.run_rule("R1", lambda c: rule_R1(c, fd, fp))
     ctx.run_rule("R2", lambda c: rule_R2(c, fd, fp))
     ctx.run_rule("R3", lambda c: rule_R3(c, fd, fp))
+    ctx.run_rule("R4", lambda c: rule_R4(c, fd))
